@@ -172,3 +172,121 @@ Definition C28_oracle_ok (c : W_case) : bool :=
 Definition C28_known (c : W_case) : N :=
   let l := c28_walk (wc_keyed c) (ghost0 c) (wc_evs c) in
   if existsb (N.eqb 0) l then 0%N else hd 0%N l.
+
+(* ------------------------------- C27: RELIABLE KEEP_LAST writers block, never drop *)
+(* issue time and key of every write, by slot *)
+Definition writes_of (l : list (ev * out)) : list (Z * (Z * Z)) :=
+  flat_map (fun eo => match e_op (fst eo) with
+                      | OWrite s k _ => [(s, (k, e_now (fst eo)))]
+                      | _ => [] end) l.
+Fixpoint assoc {B} (x : Z) (l : list (Z * B)) : option B :=
+  match l with
+  | [] => None
+  | (y, b) :: t => if y =? x then Some b else assoc x t
+  end.
+(* all completions of parked writes *)
+Definition dones_of (l : list (ev * out)) : list done := flat_map (fun eo => o_done (snd eo)) l.
+(* slots whose write was answered Ok (at once or later), in the order of the answers; each of
+   them takes the next sequence number (C27 scenarios contain no dispose / unregister) *)
+Definition ok_slots (l : list (ev * out)) : list Z :=
+  flat_map (fun eo =>
+    (match e_op (fst eo), o_imm (snd eo) with
+     | OWrite s _ _, Some ROk => [s]
+     | _, _ => [] end) ++
+    flat_map (fun d => let '(s, c, _) := d in if c =? 0 then [s] else []) (o_done (snd eo))) l.
+Definition blocked_slots (l : list (ev * out)) : list Z :=
+  flat_map (fun eo => match e_op (fst eo), o_imm (snd eo) with
+                      | OWrite s _ _, Some RBlocked => [s]
+                      | _, _ => [] end) l.
+Definition last_time (l : list (ev * out)) : Z := fold_left (fun acc eo => Z.max acc (e_now (fst eo))) l 0.
+
+Definition POKE : Z := 50000000.   (* the worker wakes up at least every 50 ms *)
+
+(* (1) replies: a write on an enabled writer is answered Ok, OutOfResources, or parked *)
+Definition c27_reply_ok (r : rsl) : bool :=
+  match r with
+  | ROk | RBlocked => true
+  | RErr c => c =? E_OUT_OF_RESOURCES
+  | RHandle _ => false
+  end.
+(* the recorded deviation: a second write that has to wait is answered Error at once *)
+Definition c27_reply_second_blocked (r : rsl) : bool :=
+  match r with RErr c => c =? E_ERROR | _ => false end.
+
+(* (2) completions: a parked write is answered Ok before its blocking time is over, or Timeout
+   when it is over (not earlier, and at the latest one worker period later) *)
+Definition c27_done_ok (mbt : option Z) (ws : list (Z * (Z * Z))) (d : done) : bool :=
+  let '(s, c, t) := d in
+  match assoc s ws with
+  | Some (_, t0) =>
+    if c =? E_TIMEOUT then
+      match mbt with Some m => (t0 + m <=? t) && (t <=? t0 + m + POKE) | None => false end
+    else if (c =? 0) || (c =? E_OUT_OF_RESOURCES) then
+      (t0 <=? t) && match mbt with Some m => t <=? t0 + m + POKE | None => true end
+    else false
+  | None => false
+  end.
+
+(* (3) a parked write is answered once the blocking time has passed *)
+Definition c27_answered (mbt : option Z) (l : list (ev * out)) : bool :=
+  let ws := writes_of l in
+  let ds := dones_of l in
+  forallb (fun s =>
+    existsb (fun d => let '(s', _, _) := d in s' =? s) ds ||
+    match mbt, assoc s ws with
+    | Some m, Some (_, t0) => last_time l <? t0 + m + POKE
+    | _, _ => true
+    end) (blocked_slots l).
+
+(* (4) what the matched reliable KEEP_ALL reader finally received is exactly what was answered Ok:
+   nothing answered Ok was dropped, nothing answered Timeout / Error was stored *)
+Definition c27_recv_ok (c : W_case) : bool :=
+  match wc_recv c with
+  | Some r => list_eqb Z.eqb (sortZ (ok_slots (wc_evs c))) r
+  | None => true
+  end.
+
+(* (5) depth: the history shown to a late joiner holds at most depth samples per instance.
+   The k-th write answered Ok has sequence number k. *)
+Fixpoint nth_key (ws : list (Z * (Z * Z))) (oks : list Z) (sn : Z) (i : Z) : option Z :=
+  match oks with
+  | [] => None
+  | s :: t => if i =? sn then option_map fst (assoc s ws) else nth_key ws t sn (i + 1)
+  end.
+Definition c27_depth_ok (c : W_case) : bool :=
+  match wc_hist c, q_hist (wc_qos c) with
+  | Some hs, KeepLast d =>
+    let ws := writes_of (wc_evs c) in
+    let oks := ok_slots (wc_evs c) in
+    let keys := map (fun sn => nth_key ws oks sn 1) hs in
+    forallb (fun k => match k with
+                      | Some _ => zlen (filter (fun k' => optZ_eqb k k') keys) <=? d
+                      | None => false end) keys
+  | _, _ => true
+  end.
+
+Definition c27_replies (l : list (ev * out)) : list rsl :=
+  flat_map (fun eo => match e_op (fst eo), o_imm (snd eo) with
+                      | OWrite _ _ _, Some r => [r]
+                      | _, _ => [] end) l.
+
+Definition C27_model_ok (c : W_case) : bool := W_model_ok c.
+Definition C27_oracle_ok (c : W_case) : bool :=
+  forallb c27_reply_ok (c27_replies (wc_evs c)) &&
+  forallb (c27_done_ok (q_mbt (wc_qos c)) (writes_of (wc_evs c))) (dones_of (wc_evs c)) &&
+  c27_answered (q_mbt (wc_qos c)) (wc_evs c) &&
+  c27_recv_ok c &&
+  c27_depth_ok c.
+(* class 1: the only thing wrong are second-blocked-write Error replies;
+   class 2: KEEP_LAST(0) (is_consistent accepts it) and only the depth bound fails *)
+Definition C27_known (c : W_case) : N :=
+  let others :=
+    forallb (c27_done_ok (q_mbt (wc_qos c)) (writes_of (wc_evs c))) (dones_of (wc_evs c)) &&
+    c27_answered (q_mbt (wc_qos c)) (wc_evs c) && c27_recv_ok c in
+  if others && c27_depth_ok c &&
+     forallb (fun r => c27_reply_ok r || c27_reply_second_blocked r) (c27_replies (wc_evs c))
+  then 1%N
+  else if others && forallb c27_reply_ok (c27_replies (wc_evs c)) &&
+          match q_hist (wc_qos c) with KeepLast 0 => true | _ => false end
+  then 2%N
+  else 0%N.
